@@ -141,7 +141,7 @@ static void run_wake(int W, int mode) {      /* mode 0 broadcast-all, 1 signal-o
 	wait_registered(W);                 /* registered under the mutex right before waiting: all W are inside wait (atomic release-and-wait) */
 	if (mode == 0) {
 		scen = "broadcast-wakes-all";
-		p_mutex_lock(mu); go = 1; p_cond_variable_broadcast(cv_ne); p_mutex_unlock(mu);
+		p_mutex_lock(mu); go = 1; if (W & 1) { p_mutex_unlock(mu); p_cond_variable_broadcast(cv_ne); } else { p_cond_variable_broadcast(cv_ne); p_mutex_unlock(mu); }     /* odd W: the (single) broadcast is issued after unlocking, which is legal */
 		if (!wait_arrivals(W, 2000) && !wait_arrivals(W, 18000)) viol("broadcast-woke-too-few", "one broadcast with %d registered waiters woke only %d", W, arrived);
 		st_waiters_woken += arrived;
 	} else if (mode == 1) {
